@@ -215,6 +215,8 @@ func runJSONStream(seed int64, n int, out, backendSpec string) *RunReport {
 				{Kind: "Import", Coll: "nofile", File: &ImportFile{Kind: "unreadable"}},
 				{Kind: "Import", Coll: "badfile", File: &ImportFile{Kind: "illformed", Text: "[{\"a\": 1"}},
 				{Kind: "Import", Coll: "badfile2", File: &ImportFile{Kind: "illformed", Text: "{\"a\": 1}"}},
+				{Kind: "Import", Coll: "nullelem", File: &ImportFile{Kind: "elems", Text: "[null]", Elems: []map[string]interface{}{nil}}},
+				{Kind: "Import", Coll: "nullelem2", File: &ImportFile{Kind: "elems", Text: "[{\"_id\":\"" + idPool[2] + "\"}, null]", Elems: []map[string]interface{}{{"_id": idPool[2]}, nil}}},
 				{Kind: "Export", Coll: "missing"},
 			} {
 				r := rec(bad)
